@@ -145,14 +145,33 @@ package stanza
 //@ event StanzaRead(pk Iface)
 //@ event AckReqRead(pk Iface)
 //@ pred isStanzaPk(p) := typeof(p) == Message || typeof(p) == *IQ || typeof(p) == Presence
+//@ event TokenRead(t Iface)
+//@ pred isStreamEnd(t) := typeof(t) == xml.EndElement && t.(xml.EndElement).Name.Space == NSStream && t.(xml.EndElement).Name.Local == "stream"
+//@ pred seSpace(t) := t.(xml.StartElement).Name.Space
+//@ pred seLocal(t) := t.(xml.StartElement).Name.Local
+//@ pred isSE(t, space, local) := typeof(t) == xml.StartElement && seSpace(t) == space && seLocal(t) == local
+//@ pred isStanzaName(l) := l == "message" || l == "presence" || l == "iq"
+//
+//@ pred sameTok(a, b) := typeof(a) == typeof(b) && (typeof(a) == xml.StartElement ==> a.(xml.StartElement) == b.(xml.StartElement)) && (typeof(a) == xml.EndElement ==> a.(xml.EndElement) == b.(xml.EndElement))
+//@ func stanza.NextXmppToken(p) (t, err)
+//@   requires p != nil
+//@   ensures [C02.token] err == nil ==> count(TokenRead) > old(count(TokenRead)) && sameTok(t, last(TokenRead)) && (typeof(t) == xml.StartElement || isStreamEnd(t))
+//@   emits TokenRead
+//@   loop 1:
+//@     invariant count(TokenRead) >= old(count(TokenRead))
+//
+// Dispatch table of the property: element name -> packet kind; anything else is an error.
+//@ pred kindOK(t, pk) := (isStreamEnd(t) ==> typeof(pk) == StreamClosePacket) && (isSE(t, NSStream, "error") ==> typeof(pk) == StreamError) && (isSE(t, NSStream, "features") ==> typeof(pk) == StreamFeatures) && (isSE(t, NSSASL, "success") ==> typeof(pk) == SASLSuccess) && (isSE(t, NSSASL, "failure") ==> typeof(pk) == SASLFailure) && (isSE(t, NSClient, "message") || isSE(t, NSComponent, "message") ==> typeof(pk) == Message) && (isSE(t, NSClient, "presence") || isSE(t, NSComponent, "presence") ==> typeof(pk) == Presence) && (isSE(t, NSClient, "iq") || isSE(t, NSComponent, "iq") ==> typeof(pk) == *IQ && pk.(*IQ) != nil) && (isSE(t, NSComponent, "handshake") ==> typeof(pk) == Handshake) && (isSE(t, NSStreamManagement, "enabled") ==> typeof(pk) == SMEnabled) && (isSE(t, NSStreamManagement, "resumed") ==> typeof(pk) == SMResumed) && (isSE(t, NSStreamManagement, "resume") ==> typeof(pk) == SMResume) && (isSE(t, NSStreamManagement, "r") ==> typeof(pk) == SMRequest) && (isSE(t, NSStreamManagement, "a") ==> typeof(pk) == SMAnswer) && (isSE(t, NSStreamManagement, "failed") ==> typeof(pk) == SMFailed)
+//@ pred knownName(t) := isStreamEnd(t) || (typeof(t) == xml.StartElement && ((seSpace(t) == NSStream && (seLocal(t) == "error" || seLocal(t) == "features")) || (seSpace(t) == NSSASL && (seLocal(t) == "success" || seLocal(t) == "failure")) || (seSpace(t) == NSClient && isStanzaName(seLocal(t))) || (seSpace(t) == NSComponent && (isStanzaName(seLocal(t)) || seLocal(t) == "handshake")) || (seSpace(t) == NSStreamManagement && (seLocal(t) == "enabled" || seLocal(t) == "resumed" || seLocal(t) == "resume" || seLocal(t) == "r" || seLocal(t) == "a" || seLocal(t) == "failed"))))
+//
 //@ func stanza.NextPacket(p) (pk, err)
 //@   requires p != nil
 //@   emit PacketRead(pk) when err == nil
 //@   emit StanzaRead(pk) when err == nil && isStanzaPk(pk)
 //@   emit AckReqRead(pk) when err == nil && typeof(pk) == SMRequest
 //@   emit StreamErrRead(pk) when err == nil && typeof(pk) == StreamError
+//@   ensures [C02.result]  err == nil ==> pk != nil && fresh(pk)
+//@   ensures [C02.kind]    err == nil ==> count(TokenRead) > old(count(TokenRead)) && exists(j, old(count(TokenRead)), count(TokenRead), kindOK(arg(TokenRead, j), pk) && knownName(arg(TokenRead, j)))
 //@   ensures typeof(pk) == *IQ ==> pk.(*IQ) != nil
-//@   ensures err == nil ==> fresh(pk)
-//@   ensures [C02.total.result] (err == nil) == (pk != nil)
-//@   bounded
+//@   emits TokenRead
 //@ event StreamErrRead(pk Iface)
